@@ -37,6 +37,11 @@ RULE = ('Record fields also hold lists and dicts, and twins that are '
         'Non-trivial: histories with an overwrite/removal of an existing '
         'key or overlapping patches or mixed relative/absolute flags; flag '
         'values with >= 2 bits; distinct by history/value fingerprint.')
+RULE += (' ' +
+         'Added in later rounds: unhashable and bytes/bytearray field '
+         'values, twins that print differently; map patches shorter than '
+         'width x height; generated derived flag enums that add and redefine '
+         'flags (printed names resolved by attribute lookup). ')
 LEVEL_TEXT = ('Model-based testing of the tracker objects over generated '
               'packet histories, and algebraic-law testing of the helper '
               'value types, exhaustive over flag values 0..255 for every '
